@@ -278,6 +278,8 @@ var liar = &core.Check{Name: "c07/liar", Quick: 15000, Thorough: 1500000, Hang: 
 		lie = 22 + c.Intn("shape.k", 2)
 	} else if c.Intn("pair", 25) == 0 {
 		lie = 24
+	} else if c.Intn("wide", 25) == 0 {
+		lie = 25
 	}
 	c.Note("lie", lie)
 	cellIdx := func() int { return c.Choose("cell", len(r.CellList)) }
@@ -388,6 +390,21 @@ var liar = &core.Check{Name: "c07/liar", Quick: 15000, Thorough: 1500000, Hang: 
 		}
 		r = &ref.RawBoc{Magic: []byte{0xb5, 0xee, 0x9c, 0x72}, SizeByte: byte(width), OffBytes: byte(c.OneOf("off24", 5, 8)), Cells: cells, Roots: 1,
 			RootList: []uint64{0}, TotSize: 2*cells + uint64(c.Intn("slack24", 4)), CellList: []ref.RawCell{{D1: 0, D2: 0}}}
+	case 25: // a width byte beyond 4 (either magic family) together with counters that use the whole width
+		magic := [][]byte{{0x68, 0xff, 0x65, 0xf3}, {0xac, 0xc3, 0xa7, 0x28}, {0xb5, 0xee, 0x9c, 0x72}}[c.Choose("magic25", 3)]
+		size := byte(c.OneOf("size25", 5, 6, 7, 8, 8, 8, 9, 16))
+		if magic[0] == 0xb5 {
+			size = byte(c.OneOf("size25g", 5, 6, 7)) | byte(c.Intn("flags25", 32))<<3
+		}
+		wideVals := []uint64{0xffffffffffffffff, 1 << 63, 1 << 61, 1<<60 + 1, 1 << 32, 0xffffffff, 1, 2}
+		r = &ref.RawBoc{Magic: magic, SizeByte: size, OffBytes: byte(c.OneOf("off25", 1, 2, 4, 8)),
+			Cells: wideVals[c.Choose("cells25", len(wideVals))], Roots: wideVals[c.Choose("roots25", len(wideVals))], RootList: []uint64{0},
+			CellList: []ref.RawCell{{D1: 0, D2: 2, Data: []byte{0xaa}}}, HasCRC: magic[1] == 0xc3}
+		if c.Bool("smallcells25") {
+			r.Cells = uint64(1 + c.Intn("ncells25", 3))
+		}
+		r.TotSize = uint64(len(r.Body()))
+		r.Trailing = c.Content("trail25", c.Intn("ntrail25", 64))
 	case 22, 23: // not a lie but a hostile shape: a long chain (deeper than the 1024 limit) or a wide sharing ladder
 		n := c.OneOf("chain", 300, 1023, 1024, 1025, 1026, 2500, 4000)
 		ladder := lie == 23
